@@ -9,9 +9,9 @@ any layout and surrounded by optional whitespace, `JSON::Parse` returns exactly 
 value: same structure and member order, duplicate keys resolved as "last value at the first
 key's position". -/
 theorem parse_print (d : Deps) (hd : DepsSafe d) (doc : JDoc) (hwf : WF d doc) (wsL wsR : Ws)
-    (hL : AllWs wsL) (hR : AllWs wsR) :
+    (hL : AllWs wsL) (hR : AllWs wsR) (hsz : (wsL ++ doc.print ++ wsR).length < 2 ^ 32) :
     parse d (wsL ++ doc.print ++ wsR).toArray = .ok doc.denote :=
-  Qentem.Json.parse_print d hd doc hwf wsL wsR hL hR
+  Qentem.Json.parse_print d hd doc hwf wsL wsR hL hR hsz
 
 /-- Duplicate keys: inserting an existing key keeps its position and replaces its value. -/
 theorem objInsert_last_wins_first_position (pre post : List (List Nat × JVal)) (k : List Nat) (v v' : JVal)
